@@ -7,9 +7,16 @@ B="${VERIF_BUILD:-$PWD/.build}"
 mkdir -p "$B"
 python3 driver/overlay.py "$B/overlay" >/dev/null || exit 2
 cd sim
+# VERIF_REPO (default /repo): build against another tree (scratch worktree with a seeded change, or a
+# snapshot for background sweeps) without touching /repo.  Registered checks never set it.
+modflag=""
+if [ -n "${VERIF_REPO:-}" ] && [ "${VERIF_REPO}" != "/repo" ]; then
+  sed "s#=> /repo\$#=> ${VERIF_REPO}#" go.mod > "$B/go.alt.mod"; cp go.sum "$B/go.alt.sum"
+  modflag="-modfile=$B/go.alt.mod"
+fi
 out="$B/htsim.test"
 extra=""
 if [ "${1:-}" = "race" ]; then out="$B/htsim.race.test"; extra="-race"; fi
-go1.26.8 test -c $extra -tags verif -overlay "$B/overlay/overlay.json" -o "$out.new" . 2>"$B/build.log" || { cat "$B/build.log" >&2; exit 2; }
+go1.26.8 test -c $modflag $extra -tags verif -overlay "$B/overlay/overlay.json" -o "$out.new" . 2>"$B/build.log" || { cat "$B/build.log" >&2; exit 2; }
 mv -f "$out.new" "$out"
 exit 0
